@@ -309,6 +309,32 @@ Example ex_owner_ok_collision :
   owner_ok (vnodes t m) 41 10 = true /\ owner_ok (vnodes t m) 41 (-1) = false.
 Proof. vm_compute. auto. Qed.
 
+(* ---- history independence, stronger: only the nodes WITH replicas matter ------------------------
+   [member_lookup n m]: the entry (replicas, value) of node n if it has at least one replica.  Two
+   histories whose node maps agree on these — they may differ in zero-replica entries
+   (AddWithWeight(node, 0)), in everything that was removed, and in all orders — have the same keys,
+   the same buckets and the same Get for every key. *)
+Theorem history_independent_members : forall vh R U, collision_free_on vh R U -> forall ops1 ops2,
+  ops_in_U U ops1 -> ops_in_U U ops2 ->
+  (forall n, member_lookup n (amap_run R ops1) = member_lookup n (amap_run R ops2)) ->
+  keys (run vh R ops1) = keys (run vh R ops2) /\
+  (forall h, bucket h (ring (run vh R ops1)) = bucket h (ring (run vh R ops2))) /\
+  forall hp ihp, get (run vh R ops1) hp ihp = get (run vh R ops2) hp ihp.
+Proof. exact history_independent_members_l. Qed.
+Print Assumptions history_independent_members.
+
+(* a zero-weight node in one history only: the maps differ ([alookup 5]), the members do not *)
+Example members_example :
+  let o1 := [OAdd (mkNode 2 1); OAddW (mkNode 5 4) 0; OAddR (mkNode 3 2) 7] in
+  let o2 := [OAddR (mkNode 3 2) 7; OAdd (mkNode 2 1)] in
+  alookup 5 (amap_run 100 o1) <> alookup 5 (amap_run 100 o2) /\
+  (forall n, In n [2; 3; 5; 9] -> member_lookup n (amap_run 100 o1) = member_lookup n (amap_run 100 o2)) /\
+  get (run cf_hash 100 o1) 250 0 = get (run cf_hash 100 o2) 250 0.
+Proof.
+  split; [vm_compute; discriminate|]. split; [|vm_compute; reflexivity].
+  intros n H. repeat (destruct H as [<-|H]; [vm_compute; reflexivity|]). destruct H.
+Qed.
+
 (* ---- agrees => prop_ok ----------------------------------------------------------------------------
    For every ring history case on a well-formed table (one row of R hashes per repr, the operations
    mention reprs of the table) that is not one of the strict exhibits of the known finding — and for
